@@ -269,6 +269,14 @@ impl World {
 
     /// Properties to blame for a capacity / accounting failure: the most
     /// specific statement that covers the operations this history contains.
+    /// No violation of a property this scenario was built for (`base`).  A
+    /// violation of some *other* property does not end a history: the check
+    /// that runs this scenario reports only its own property, and its oracle
+    /// must still get to see how the history goes on.
+    pub fn own_clean(&self) -> bool {
+        !self.viol.iter().any(|v| self.base.iter().any(|b| *b == v.property))
+    }
+
     pub fn blame(&self) -> Vec<&'static str> {
         if self.resizes_begun > 0 && !self.close_begun {
             // C09: take() "frees the slot", retain() "does not reduce the
